@@ -370,6 +370,64 @@ where
         let res = w.select(pop, &mut r);
         observe_boxed(res, |x| pos(pop, x), &r)
     });
+    // an erased selector is a selector again: wrapped 2 .. 100 times over (Box and Arc alternating) it must still
+    // select the same member / fail the same way, consume the stream identically and call the wrapped value once
+    {
+        type Erased = dyn DynSelector<Pop> + Send + Sync;
+        let levels = 2 + (cx.base.state_fingerprint().2 % 99) as usize;
+        let b = cx.calls.as_ref().map_or(0, |c| c.load(Ordering::Relaxed));
+        let mut r = cx.base.fork();
+        let got = catch(|| {
+            let mut wrapped: Box<Erased> = Box::new(mk());
+            for level in 1..levels {
+                wrapped = if level % 2 == 0 {
+                    Box::new(wrapped)
+                } else {
+                    let shared: Arc<Erased> = Arc::from(wrapped);
+                    Box::new(shared)
+                };
+            }
+            let res = wrapped.select(pop, &mut r);
+            (res.as_ref().map(|x| pos(pop, x)).map_err(|e| e.to_string()), r.state_fingerprint())
+        });
+        obs.hit("probe.erased-selector-wrapped-2..100-times");
+        cx.flavours_run += 1;
+        let site = cx.site.clone();
+        let reference = cx.reference.result.clone().map_err(|c| c.first().cloned().unwrap_or_default());
+        match got {
+            Err(p) => cx.out.push(Violation::new(
+                "never-panics",
+                format!("panic:{site}:nested"),
+                format!("{site} wrapped {levels} times over panicked: {}", p.message),
+            )),
+            Ok((res, rng)) => {
+                if res.is_ok() != reference.is_ok() || (res.is_ok() && res != reference) {
+                    cx.out.push(Violation::new(
+                        "same-result",
+                        format!("same-result:{site}:nested"),
+                        format!("{site} wrapped {levels} times over: {res:?}, concrete value: {reference:?}"),
+                    ));
+                }
+                if rng != cx.reference.rng {
+                    cx.out.push(Violation::new(
+                        "same-stream-consumption",
+                        format!("rng:{site}:nested"),
+                        format!("{site} wrapped {levels} times over: stream state after the call {rng:?}, concrete: {:?}", cx.reference.rng),
+                    ));
+                }
+                if let Some(c) = &cx.calls {
+                    let n = c.load(Ordering::Relaxed) - b;
+                    if n != cx.expected_calls {
+                        cx.out.push(Violation::new(
+                            "exactly-one-underlying-call",
+                            format!("calls:{site}:nested"),
+                            format!("{site} wrapped {levels} times over: the wrapped value's method ran {n} times, {} when called directly", cx.expected_calls),
+                        ));
+                    }
+                }
+            }
+        }
+    }
     obs.count("steps", cx.flavours_run);
     cx.out
 }
